@@ -32,11 +32,14 @@ structure Params where
   killRemovesDir : Bool
   /-- test-mode reattach does not record the runner (so `Kill` cannot kill the server) -/
   testModeNoRunner : Bool
+  /-- `ReattachConfig()` of a client that was itself created by reattaching hands back the
+      configuration it was given (so in particular its `Test` flag), not a rebuilt one -/
+  reattachConfigKeepsTest : Bool
   deriving DecidableEq, Repr
 
 def Params.Good (P : Params) : Prop :=
   P.retryGuard = true ∧ P.addrShortCircuit = true ∧ P.clientCached = true ∧ P.killRemovesDir = true ∧
-  P.testModeNoRunner = true
+  P.testModeNoRunner = true ∧ P.reattachConfigKeepsTest = true
 
 instance (P : Params) : Decidable P.Good := by unfold Params.Good; exact inferInstance
 
@@ -181,12 +184,54 @@ def step (P : Params) (s : State) : Event → Option State
     | some true => some { s with procs := updP s.procs p (some false) }
     | _ => none
 
+/-! ### Reattaching from a client's `ReattachConfig()` (generations of clients on one plugin)
+
+`ReattachConfig()` is `nil` before the client has an address.  For a client that launched its plugin
+it is a fresh `{Protocol, Addr, Pid}` (never test mode); for a client that was itself created by
+reattaching it is the configuration it was given — or, in the other shape of the code, a rebuilt one
+that carries over how the process is found but not the `Test` flag. -/
+
+/-- the launch method of a NEW client built from what `ReattachConfig()` returns; `none` = nil -/
+def reattachConfigOf (P : Params) (s : State) : Option Launch :=
+  match s.addr with
+  | none => none
+  | some _ =>
+    match s.launch with
+    | .reattach test => some (.reattach (test && P.reattachConfigKeepsTest))
+    | _ => some (.reattach false)
+
+/-- a new client built from that configuration.  It lives in the same world: the process table is
+shared, its target is the instance the old client is connected to. -/
+def nextGen (P : Params) (s : State) : Option State :=
+  match s.addr, reattachConfigOf P s with
+  | some a, some l => some { init l true with procs := s.procs, nProcs := s.nProcs, target := some a }
+  | _, _ => none
+
 def runFrom (P : Params) : State → List Event → Option State
   | s, [] => some s
   | s, e :: es =>
     match step P s e with
     | some s' => runFrom P s' es
     | none => none
+
+/-- further generations: for each history, take `ReattachConfig()` of the current client, build a
+new client from it and run the history on that one -/
+def chainFrom (P : Params) : State → List (List Event) → Option State
+  | s, [] => some s
+  | s, es :: rest =>
+    match nextGen P s with
+    | none => none
+    | some s1 =>
+      match runFrom P s1 es with
+      | none => none
+      | some s2 => chainFrom P s2 rest
+
+/-- a chain of clients: the first runs `es`, every further one is built from its predecessor's
+`ReattachConfig()`; the result is the state of the LAST client (and of the shared process table) -/
+def chain (P : Params) (s : State) (es : List Event) (rest : List (List Event)) : Option State :=
+  match runFrom P s es with
+  | none => none
+  | some s1 => chainFrom P s1 rest
 
 def Reachable (P : Params) (l : Launch) (alive : Bool) (s : State) : Prop :=
   ∃ es, runFrom P (init l alive) es = some s
